@@ -32,9 +32,10 @@ fn pure_codecs() -> Vec<grenad::CompressionType> {
 /// Sorter buffer scenario: insert sizes steered by hook H3 to hit exact-fit, one-byte-short,
 /// oversized and zero-length inserts, then drain by `route` and compare with the model.
 fn sorter_buffer_case(ctx: &Ctx, stream: &str, idx: u64, rng: &mut Rng, n_inserts: usize, small: bool) {
-    let budget = *rng.pick(&[256usize, 512, 1024, 4096]);
+    // budgets and capacities deliberately include values that are not multiples of the 16-byte bound
+    let budget = *rng.pick(&[256usize, 500, 512, 1000, 1024, 4095, 4096]);
     let allow_realloc = rng.chance(1, 2);
-    let initial = if allow_realloc { Some(*rng.pick(&[16usize, 32, 64, 256, budget])) } else if rng.chance(1, 2) { Some(*rng.pick(&[64usize, 256, budget])) } else { None };
+    let initial = if allow_realloc { Some(*rng.pick(&[16usize, 17, 32, 64, 100, 256, budget])) } else if rng.chance(1, 2) { Some(*rng.pick(&[64usize, 100, 250, 256, budget, budget + 1])) } else { None };
     let codec_pool: Vec<grenad::CompressionType> = if small { vec![grenad::CompressionType::None, grenad::CompressionType::Snappy] } else { pure_codecs() };
     let scfg = SCfg {
         budget,
@@ -49,6 +50,7 @@ fn sorter_buffer_case(ctx: &Ctx, stream: &str, idx: u64, rng: &mut Rng, n_insert
         block_size: Some(1024),
         interval: Some(*rng.pick(&[1usize, 8])),
         levels: Some(rng.range(0, 2) as u8),
+        order: rng.next_u64(),
     };
     let kind = *rng.pick(&[MergeKind::Concat, MergeKind::Last, MergeKind::Min]);
     let route = Route::ALL[rng.below(3)];
@@ -330,7 +332,7 @@ fn real_size_case(ctx: &Ctx, idx: u64, rng: &mut Rng) {
         level: None,
         block_size: None,
         interval: None,
-        levels: None,
+        levels: None, order: rng.next_u64(),
     };
     let n = 24 * 1024 * 1024 / 600;
     let mut inserts = Vec::with_capacity(n);
@@ -389,7 +391,7 @@ fn leak_case(ctx: &Ctx, idx: u64, rng: &mut Rng) {
     let seed = rng.next_u64();
     let run = |measure: bool| -> i64 {
         let mut r = Rng::new(seed);
-        let scfg = SCfg { budget: 2048, raw: true, initial: Some(64), allow_realloc: true, max_nb_chunks: 2, stable: true, parallel: false, codec: None, level: None, block_size: None, interval: None, levels: None };
+        let scfg = SCfg { budget: 2048, raw: true, initial: Some(64), allow_realloc: true, max_nb_chunks: 2, stable: true, parallel: false, codec: None, level: None, block_size: None, interval: None, levels: None, order: r.next_u64() };
         if measure {
             am::thread_track(true);
         }
